@@ -384,6 +384,22 @@ static void instance_oracles(Instance &I, J &out) {
     }
     J kp = J::arr(); for (int k : key_packets) kp.push(k); out.set("key_packets", kp);
 
+    // ---- block-level tool usage (C20): the SVT decoder parses the stream, the per-block hook counts the tools the syntax uses ----
+    if (orc.geti("tool_usage", 0) && !sim_active()) {
+        EbComponentType *dh = nullptr; EbSvtAv1DecConfiguration dc; memset(&dc, 0, sizeof dc);
+        if (svt_av1_dec_init_handle(&dh, nullptr, &dc) == EB_ErrorNone && dh) {
+            int W2 = (int)I.cfg->source_width, H2 = (int)I.cfg->source_height; bool hb = I.cfg->encoder_bit_depth > 8;
+            dc.threads = 1; dc.num_p_frames = 1; dc.max_picture_width = W2; dc.max_picture_height = H2; dc.max_bit_depth = hb ? EB_TEN_BIT : EB_EIGHT_BIT; dc.max_color_format = EB_YUV420; dc.skip_film_grain = 1;
+            if (svt_av1_dec_set_parameter(dh, &dc) == EB_ErrorNone && svt_av1_dec_init(dh) == EB_ErrorNone) {
+                bool okd = true;
+                for (auto *p : pk) { if (p->data.empty()) continue; if (svt_av1_dec_frame(dh, p->data.data(), p->data.size(), 0) != EB_ErrorNone) { okd = false; break; } }
+                J tu; events_tool_usage(tu); tu.set("parsed_ok", okd); out.set("tool_usage", tu);
+                svt_av1_dec_deinit(dh);
+            }
+            svt_av1_dec_deinit_handle(dh);
+        }
+    }
+
     // ---- independent decode (C01, C03, C19, C26) ----
     if (!orc.geti("decode", 1)) return;
     std::string err; std::unique_ptr<refdec::Decoder> d(refdec::open_dav1d(err));
